@@ -1,20 +1,47 @@
 #!/venv/bin/python
-"""Re-run the owning property's quick check against every seeded change and
-write seeded/SUMMARY.json (which checks catch which changes)."""
+"""seeded_all.py [--from-meta] [--jobs N] [name-prefix ...]
+
+Re-run the owning property's quick check against every seeded change (N at a
+time) and write seeded/SUMMARY.json (which checks catch which changes).  With
+--from-meta the summary is assembled from the recorded meta.json files
+without running anything.  A change whose meta.json carries `caught_note`
+(caught by another property's check or at the thorough tier) or
+`not_caught_note` (outside every property's domain, with the reason) is not
+counted as missed when the owning quick check stays quiet."""
 import glob
 import json
 import os
 import subprocess
 import sys
+from concurrent.futures import ThreadPoolExecutor
 
 VERIF = os.path.dirname(os.path.dirname(os.path.abspath(__file__)))
-rows = []
-missed = 0
-for d in sorted(glob.glob(os.path.join(VERIF, 'seeded', 'C*'))):
-    if not os.path.isdir(d):
-        continue
+args = sys.argv[1:]
+from_meta = '--from-meta' in args
+if from_meta:
+    args.remove('--from-meta')
+jobs = 4
+if '--jobs' in args:
+    i = args.index('--jobs')
+    jobs = int(args[i + 1])
+    del args[i:i + 2]
+dirs = [d for d in sorted(glob.glob(os.path.join(VERIF, 'seeded', 'C*')))
+        if os.path.isdir(d) and (not args or any(
+            os.path.basename(d).startswith(a) for a in args))]
+
+
+def one(d):
     name = os.path.basename(d)
     prop = name[:3]
+    meta = json.load(open(os.path.join(d, 'meta.json')))
+    row = {'change': name, 'property': prop, 'summary': meta.get('summary'),
+           'recorded_caught_by': meta.get('caught_by', []),
+           'caught_note': meta.get('caught_note'),
+           'not_caught_note': meta.get('not_caught_note')}
+    if from_meta:
+        row['caught_by'] = meta.get('caught_by', [])
+        row['first_violation'] = meta.get('first_violation')
+        return row
     r = subprocess.run([os.path.join(VERIF, 'selftest/sensitivity.py'),
                         os.path.join(d, 'patch.diff'), prop],
                        capture_output=True, text=True)
@@ -22,17 +49,32 @@ for d in sorted(glob.glob(os.path.join(VERIF, 'seeded', 'C*'))):
     caught = [ln.split(':', 1)[1].split() for ln in lines
               if ln.startswith('CAUGHT-BY')]
     caught = caught[0] if caught else ['?']
-    first = next((ln[:300] for ln in lines if 'VIOLATION' in ln), None)
-    meta = json.load(open(os.path.join(d, 'meta.json')))
-    rows.append({'change': name, 'property': prop,
-                 'summary': meta.get('summary'),
-                 'caught_by': [] if caught == ['none'] else caught,
-                 'first_violation': first})
-    if caught == ['none'] or caught == ['?']:
-        missed += 1
+    row['caught_by'] = [] if caught in (['none'], ['?']) else caught
+    row['first_violation'] = next((ln[:300] for ln in lines
+                                   if 'VIOLATION' in ln), None)
     print(name, caught)
     sys.stdout.flush()
-json.dump(rows, open(os.path.join(VERIF, 'seeded', 'SUMMARY.json'), 'w'),
-          indent=1)
-print('seeded changes: %d, missed: %d' % (len(rows), missed))
+    return row
+
+
+with ThreadPoolExecutor(max_workers=jobs) as ex:
+    rows = list(ex.map(one, dirs))
+missed = [r['change'] for r in rows if not r['caught_by'] and
+          not r['caught_note'] and not r['not_caught_note']]
+elsewhere = [r['change'] for r in rows if r['caught_note']]
+outside = [r['change'] for r in rows if r['not_caught_note']]
+if not args:
+    json.dump({'changes': rows, 'total': len(rows),
+               'caught_by_own_quick_check': sum(
+                   1 for r in rows if r['property'] in r['caught_by'] and
+                   not r['caught_note']),
+               'caught_elsewhere_or_thorough': elsewhere,
+               'outside_every_domain': outside, 'missed': missed},
+              open(os.path.join(VERIF, 'seeded', 'SUMMARY.json'), 'w'),
+              indent=1)
+print('seeded changes: %d, own quick check: %d, elsewhere/thorough: %d, '
+      'outside: %d, missed: %d %s' % (
+          len(rows), sum(1 for r in rows if r['property'] in r['caught_by']
+                         and not r['caught_note']),
+          len(elsewhere), len(outside), len(missed), missed))
 sys.exit(1 if missed else 0)
